@@ -170,6 +170,26 @@ func TestVerifC06Shachain(t *testing.T) {
 					}
 				}
 			}
+			// "the secrets it sends follow its own derivation chain": what the
+			// producer returns for the next index is compared with an independent
+			// BOLT-3 derivation from the seed - before and after the caller has
+			// flipped a bit of the returned value in place (as ChanSyncMsg does for
+			// a restored channel): the producer's answers are values, not views
+			rec["pexact"] = 1
+			pv := uint64(startIndex) - uint64(store.index)
+			if pv > uint64(startIndex) {
+				pv = 0
+			}
+			for k := 0; k < 2; k++ {
+				got, perr := producer.AtIndex(pv)
+				if perr != nil {
+					break
+				}
+				if *got != c06RefSecret(root, pv) {
+					rec["pexact"] = 0
+				}
+				got[0] ^= 1
+			}
 			var enc bytes.Buffer
 			store.Encode(&enc)
 			rec["nb"] = int(store.lenBuckets)
@@ -179,4 +199,18 @@ func TestVerifC06Shachain(t *testing.T) {
 			out.Emit(rec)
 		}
 	}
+}
+
+// c06RefSecret: generate_from_seed of BOLT 3, written independently of the
+// package's element.derive (seed = secret of index 2^48-1 - v).
+func c06RefSecret(root chainhash.Hash, v uint64) chainhash.Hash {
+	to := (uint64(1)<<48 - 1) - v
+	buf := [32]byte(root)
+	for b := 47; b >= 0; b-- {
+		if (to>>uint(b))&1 == 1 {
+			buf[b/8] ^= 1 << uint(b%8)
+			buf = sha256.Sum256(buf[:])
+		}
+	}
+	return chainhash.Hash(buf)
 }
